@@ -29,7 +29,7 @@ func (check) Cases(tier string) int {
 }
 
 func (check) Rule() string {
-	return "(1) worlds of 1-6 settings (top-level and nested under s.) whose strings are expression trees of depth <= 3 (quick) / 5 over literals (incl. $ } : and blanks, with $ and } at the start, in the middle and at the END of a literal, so escape sequences sit at every position of a string including its last two characters; outside ${} a } is spelled } or $} at random, the respelled text being merged later), references (also with computed names), default/alternative/error operators and escapes, plus typed plain settings (int, uint, float, bool, object, list); every referenced name is placed on a random subset of the layers root / 0-2 Env configs / 0-2 resolvers (incl. zero resolvers), each layer's value naming the layer; the root is built by one merge or by several merges in random order with values overwritten later (late binding). Every expression setting is read through String(), Unpack into interface{} and string fields, and (nested ones) a Child handle, and compared with the model evaluator; resolver call order is monitored. (2) forests (forest.go): 3-6 small source configurations and 1-3 trees over 8 totally ordered names (2 plain values naming their tree, 6 expressions over the names before them, so no cycles); every tree is assembled by 2-6 merges in random order of Go data, of source configurations and of trees built earlier (Merge of a *Config: the same expression gets copied into several trees, in which the names it refers to have different values or are missing), 0-2 resolvers; every tree is read in turn with all the other trees as Env configurations: each setting through String(), Unpack into interface{} / string fields, a Child handle, and the whole tree through one Unpack into a map, compared with an evaluator that expands every expression against the tree it lives in, then the Env configurations most recently added first, then the resolvers. Non-trivial = the read involved at least one reference; distinct = distinct (world or forest + tree read, setting)."
+	return "(1) worlds of 1-6 settings (top-level and nested under s.) whose strings are expression trees of depth <= 3 (quick) / 5 over literals (incl. $ } : and blanks, with $ and } at the start, in the middle and at the END of a literal, so escape sequences sit at every position of a string including its last two characters; outside ${} a } is spelled } or $} at random, the respelled text being merged later), references (also with computed names), default/alternative/error operators and escapes, plus typed plain settings (int, uint, float, bool, object, list); every referenced name is placed on a random subset of the layers root / 0-2 Env configs / 0-2 resolvers (incl. zero resolvers), each layer's value naming the layer; the root is built by one merge or by several merges in random order with values overwritten later (late binding). Every expression setting is read through String(), Unpack into interface{} and string fields, and (nested ones) a Child handle, and compared with the model evaluator; resolver call order is monitored. (2) forests (forest.go): 3-6 small source configurations and 1-3 trees over 8 totally ordered names (2 plain values naming their tree, 6 expressions over the names before them, so no cycles); every tree is assembled by 2-6 merges in random order of Go data, of source configurations and of trees built earlier (Merge of a *Config: the same expression gets copied into several trees, in which the names it refers to have different values or are missing), 0-2 resolvers; every tree is read in turn with all the other trees as Env configurations: each setting through String(), Unpack into interface{} / string fields, a Child handle, and the whole tree through one Unpack into a map, compared with an evaluator that expands every expression against the tree it lives in, then the Env configurations most recently added first, then the resolvers. (3) expansion results are data (data.go): one setting built from a template (comma list, bracket list, nested list, object, object of list, plain text, bare) around a carrier that brings a marker text such as ${x}, ${x:oops}, ${x:+oops}, ${x:?oops} (alone or inside a text that is a list itself) into the RESULT of the expansion: an escape in the setting itself, a plain string of the tree, a setting whose own expansion yields the marker, an Env value (Env built without VarExp), a resolver answer under Noop/Env/DefaultConfig; x is defined (canary) or undefined; with or without an extra empty reference that makes the setting a string with expansions. Expected = the resulting text (known by construction) after the documented text->value step (parse.ValueWithConfig); read whole (Unpack into interface{}, whole configuration into a map) and element by element (String with idx, String with a path below the setting). (4) lookup order for names of 2-4 segments (pathblock.go): tree / 0-2 Env / 0-2 resolvers, every layer defines the name (value names the layer), holds a non-object (int, string, bool, float, reference to an int) at a proper prefix of the name, or nothing; read through ${n}, pre-${n}, ${n:d}, ${n:+a}, ${n:?m}, ${${nm}}; expected = the first layer in lookup order that defines the name, a layer with a non-object on the path does not define it. Non-trivial = the read involved at least one reference; distinct = distinct (world or forest + tree read, setting) / distinct data or lookup case."
 }
 
 func (check) Assumptions() []string {
@@ -39,6 +39,8 @@ func (check) Assumptions() []string {
 		"resolvers answer with parse.NoopConfig",
 		"forests: an expression living in an Env configuration is looked up in that Env configuration first (the tree it lives in), then in the Env configurations of the read, then in the resolvers; the configuration being read is not consulted for it. Cycles (C08) are excluded by construction; values are words that the text->value step leaves alone",
 		"a lone $ not followed by {, $ or } is not generated (the statement only pins down $$ and $})",
+		"data workload: results the text->value step rejects (parse error) are not compared; the text->value step itself is C17's business and is used as the oracle for it",
+		"monitored, not judged (the statement does not pin them down): (i) whose PathSep/MaxIdx/EnableNumKeys/EscapePath split a COMPUTED name (${${nm}}): the library uses the options of the read call, literal names were split at creation (monitor read_with_other_pathsep_than_creation); (ii) a name whose value is null under the operators: the library treats null as set and non-empty, rendering it as the text null (monitor null_valued_name_observed)",
 	}
 }
 
